@@ -66,9 +66,9 @@ theorem doCommand_eq (h : Handler) (s : St) (v : Nat) : doCommand h s v =
     { s with cmd := { s.cmd with lane := { prev := some (h.lastCmd v), dirty := true }, dirty := true },
              sup := { s.sup with lane := { s.sup.lane with eventQ := s.sup.lane.eventQ ++ h.supplied v },
                                  dirty := s.sup.dirty || !(h.supplied v).isEmpty },
-             ad := { s.ad with buf := s.ad.buf ++ h.issuedBy v, issued := s.ad.issued ++ h.issuedBy v },
+             ad := h.adAfter s.ad v,
              trace := s.trace ++ h.entries v } := by
-  unfold doCommand Handler.entries Handler.supplied Handler.lastCmd Handler.issuedBy
+  unfold doCommand Handler.entries Handler.supplied Handler.lastCmd Handler.adAfter
   cases hs : h.selfCmd v with
   | none => simp [setCommand, CmdLane.command, supplyAll_eq, sendAll, hs]
   | some u =>
